@@ -8,7 +8,8 @@ def tdCfg : TDigest.Cfg :=
   { tun := { bufMul := DSGen.tdigest_BUFFER_MULTIPLIER, fudgeThr := DSGen.tdigest_FUDGE_THRESHOLD,
              fudgeSmall := DSGen.tdigest_FUDGE_SMALL_K, fudgeLarge := DSGen.tdigest_FUDGE_LARGE_K,
              capMul := DSGen.tdigest_CAPACITY_K_MULT, comprMul := DSGen.tdigest_COMPRESSION_K_MULT,
-             minK := DSGen.tdigest_MIN_K, quantW1W2 := DSGen.tdigest_QUANTILE_WEIGHTS_AS_W1_W2 },
+             minK := DSGen.tdigest_MIN_K, caddSafe := DSGen.tdigest_CENTROID_ADD_OVERFLOW_SAFE,
+             quantW1W2 := DSGen.tdigest_QUANTILE_WEIGHTS_AS_W1_W2 },
     zMul := DSGen.tdigest_SCALE_Z_MULT, zAdd := DSGen.tdigest_SCALE_Z_ADD,
     defaultK := DSGen.tdigest_DEFAULT_K }
 
